@@ -285,6 +285,64 @@ func TestVerifC12(t *testing.T) {
 		}))
 	}
 
+	// --- stream 1b: text -> prefix (routing.IpParserFactory / parsePrefixes): every way of writing a
+	// prefix or a bare address, incl. IPv6 literals with an embedded dotted quad
+	nText := 600
+	if VThorough() {
+		nText = 12000
+	}
+	for i := 0; i < nText; i++ {
+		p := c12RandPrefix(r, stats)
+		if r.Chance(0.4) {
+			p = netip.PrefixFrom(p.Addr(), p.Addr().BitLen()) // host route: may be written bare
+		}
+		var text string
+		a := p.Addr()
+		switch {
+		case p.Bits() == a.BitLen() && r.Chance(0.6):
+			text = a.String() // bare address
+			if a.Is4In6() && r.Chance(0.5) {
+				b := a.As16()
+				text = fmt.Sprintf("::ffff:%x:%x", uint16(b[12])<<8|uint16(b[13]), uint16(b[14])<<8|uint16(b[15])) // mapped, pure hex form
+			}
+			stats.Inc("ptext.bare")
+		default:
+			text = p.String()
+		}
+		if a.Is6() && !a.Is4In6() && r.Chance(0.3) {
+			// IPv6 literal with an embedded dotted quad (e.g. NAT64 64:ff9b::192.0.2.1)
+			b := a.As16()
+			full := fmt.Sprintf("%x:%x:%x:%x:%x:%x:%d.%d.%d.%d", uint16(b[0])<<8|uint16(b[1]), uint16(b[2])<<8|uint16(b[3]), uint16(b[4])<<8|uint16(b[5]),
+				uint16(b[6])<<8|uint16(b[7]), uint16(b[8])<<8|uint16(b[9]), uint16(b[10])<<8|uint16(b[11]), b[12], b[13], b[14], b[15])
+			if p.Bits() == 128 && r.Bool() {
+				text = full
+			} else {
+				text = fmt.Sprintf("%s/%d", full, p.Bits())
+			}
+			stats.Inc("ptext.v6_dotted_quad")
+		}
+		if strings.Contains(text, ".") && strings.Contains(text, ":") {
+			stats.Inc("ptext.colon_and_dot")
+		}
+		if r.Chance(0.2) {
+			text = strings.ToUpper(text)
+		}
+		st.Emit("ptext "+c12Tok(p), VRecover(func() string {
+			var got []netip.Prefix
+			parser := routing.IpParserFactory(func(f *config_parser.Function, cidrs []netip.Prefix, o *routing.Outbound) error {
+				got = cidrs
+				return nil
+			})
+			if err := parser(log, &config_parser.Function{Name: "dip"}, "", []string{text}, &routing.Outbound{Name: "direct"}); err != nil {
+				return "err:" + text + ":" + err.Error()
+			}
+			if len(got) != 1 {
+				return fmt.Sprintf("err:%d prefixes", len(got))
+			}
+			return "pfx=" + c12Tok(got[0])
+		}))
+	}
+
 	// --- stream 2: sharing decisions of the real builder (addIp / addSourceIp / addSourceMac share lpmDedup)
 	nShare := 150
 	if VThorough() {
